@@ -101,6 +101,21 @@ def run(ctx):
         raise MachineryError('too few random role values observed (%d)' % nroles)
     rej = ctx.judge('Trace_Enc', ev, chunk=100000)
     ctx.traces += len(ev) - len(rej)
+    if not rej:
+        import copy as _copy
+        dup = _copy.deepcopy(ev[:6])
+        dup[5]['roles'][0]['val'] = list(dup[1]['roles'][0]['val'])           # a session key used twice in one history
+        r2 = ctx.judge('Trace_Enc', dup)
+        short = _copy.deepcopy(ev[:2])
+        short[1]['roles'][0]['val'] = short[1]['roles'][0]['val'][:-1]        # a session key one octet short
+        r3 = ctx.judge('Trace_Enc', short)
+        leak = _copy.deepcopy(ev[:1])
+        leak[0]['output'] = leak[0]['output'] + leak[0]['roles'][0]['val']   # the session key in the clear in the output
+        r4 = ctx.judge('Trace_Enc', leak)
+        from ..common import MachineryError as _ME
+        if not (any(c == 'C13.fresh' for _, c in r2) and any(c == 'C13.size' for _, c in r3) and any(c == 'C13.not-in-clear' for _, c in r4)):
+            raise _ME('self-test C13: corrupted histories were accepted: %s %s %s' % (r2, r3, r4))
+        ctx.extra['selftest_corruptions_rejected'] = ['repeated session key', 'short session key', 'session key in the output']
     ctx.extra['operations'] = len(ev)
     ctx.extra['role_values'] = nroles
     ctx.extra['roles'] = {r: sum(1 for e in ev for x in e['roles'] if x['role'] == r) for r in ('session-key', 'prefix', 'salt', 'ephemeral', 'protect-salt', 'protect-iv')}
